@@ -37,6 +37,7 @@ fn exec_line(line: &str) -> String {
 
 fn main() {
     util::quiet_panics();
+    unsafe { libc::umask(0o022); }
     wire::self_test();
     let args: Vec<String> = std::env::args().collect();
     let out = std::io::stdout();
@@ -115,8 +116,8 @@ fn main() {
         Some("slabagen") => { emit("slaba".to_string()); }
         Some("slxgen") => {
             // one full exhaustion of the retry budget + short scripted runs (more with `all`)
-            let mut v = vec!["slx 2 1000", "slx 2 1", "slx 3 5", "slx 0 7", "slx 65534 1", "slx 4 1"];
-            if args.get(2).map(|s| s.as_str()) == Some("all") { v.extend(["slx 65534 3", "slx 4 2", "slx 65532 40000"]); }
+            let mut v = vec!["slx 2 1000 3", "slx 2 1", "slx 3 5", "slx 0 7", "slx 65534 1", "slx 4 1"];
+            if args.get(2).map(|s| s.as_str()) == Some("all") { v.extend(["slx 2 1000", "slx 6 1 1", "slx 65534 3", "slx 4 2", "slx 65532 40000", "slx 65534 1 1", "slx 2 7 1"]); }
             for l in v { emit(l.to_string()); }
         }
         Some("slgen") => {
